@@ -607,6 +607,11 @@ var hostileTokens = []string{
 	"[nomarkup]\xe3\x81", "[nomarkup]\xff\xfe\xfd", "[nomarkup]é\xc3",
 	"[select value=a a=\"%\\\\\"/]", "[plural value=1 one=\"\\\\%\" other=\"%\\\\\"/]", "[ordinal value=2 two=\"%\\\\\" other=\"\\\\\"/]", "[select value=% %=\"%%\"/]",
 	"\\[[b/] x", "\\][pause/] and then", "\\[[b/]  y", "x \\[[wave/] z",
+	// integer values at and beyond the edges of the integer types (short, so that the 64-byte cut keeps them whole)
+	"[ordinal value=9223372036854775808 other=\"x\"/]", "[plural value=18446744073709551615 other=\"b\"/]",
+	"[ordinal value=9223372036854775807 other=\"x\"/]", "[ordinal value=4294967296 other=\"%th\"/]",
+	"[a p=9223372036854775808/]", "[plural value=99999999999999999999 other=\"b\"/]", "[ordinal value=2147483648 other=\"%\"/]",
+	"[ordinal value=18446744073709551613 few=\"x\"/]",
 	"[select value=a a=\"\"/]", "[plural value=1.5 other=\"%\"/]", "[ordinal value=1 /]", "[select a=1/]", "[plural value=x one=\"a\"/]",
 	"0", "12", "1.5", ".", "%", "[/]", "[/", "/]", "[a]", "[/a]", "[b/]", "[nomarkup]", "[/nomarkup]", "[select value=", "\\[", "\\]", "٣", "  ", "　", " ",
 }
